@@ -69,16 +69,89 @@ def isi_provenance(ctx, rep):
     bb, st = aggs[0]
     fields = dict(zip(st["rv"]["fields"], st["rv"]["ops"]))
     rep.check("R18.2", "field-set", set(fields) == {"reqi", "udpport", "flags", "version", "prefix", "interval", "admin", "iname"}, "ISI field set changed: %s" % sorted(fields), b.loc(st["line"]), nontrivial=False)
+    # each option-backed field: the builder's value when set, the documented default when unset - Builder::isi evaluated as a
+    # table for {unset, set}, whatever combinators or matches the source uses (unwrap_or / unwrap_or_default / match / as_deref)
+    import tabeval
+    rows0 = b.decision_rows()
+    want_default = {"admin": "", "iname": None, "prefix": 0, "interval": "ZERO"}
+    for e_ in ctx.ast.impls("Isi"):
+        for it_ in e_[3]["items"]:
+            if it_["k"] == "Const" and it_["name"] == "DEFAULT_INAME" and it_["value"].get("t") == "str":
+                want_default["iname"] = it_["value"]["v"]
+    state = {}
+
+    def opt_leaf(o, model):
+        x = strip_refs(o)
+        if x[0] == "field" and x[3] in state and strip_refs(x[1]) == ("arg", 1):
+            v = state[x[3]]
+            return ("opt", v, ("sym", x[3])) if v is not None else ("sym", x[3])
+        if o[0] == "const" and o[1] is None:
+            txt = str(o[2])
+            if txt.startswith("const(") or txt.startswith('"'):
+                return ("str", txt.strip('"'))
+            if txt.endswith("Duration::ZERO"):
+                return ("str", "ZERO")
+            if txt.endswith("DEFAULT_INAME") and want_default["iname"] is not None:
+                return ("str", want_default["iname"])
+            if txt == '""' or txt == "":
+                return ("str", "")
+        return None
+
+    def opt_call(d, rd, args, model):
+        if re.search(r"Option::<T>::(as_deref|as_ref|cloned|copied)$", d):
+            return model.ev.ev(args[0])
+        if re.search(r"ToOwned::to_owned$|String::from$|convert::Into::into$|convert::From::from$|string::ToString::to_string$|Deref::deref$|<impl str>::to_string$", d):
+            return model.ev.ev(args[0])
+        if d.endswith("Option::<T>::unwrap_or_default"):
+            ov = model.ev.ev(args[0])
+            if isinstance(ov, tuple) and ov[0] == "opt":
+                return ov[2] if ov[1] else ("dflt",)
+        if d.endswith("Default::default"):
+            return ("dflt",)
+        return None
+
+    def canon(v, f):
+        if v == ("dflt",):
+            return {"admin": "", "prefix": 0, "interval": "ZERO"}.get(f, ("dflt",))
+        if isinstance(v, tuple) and v[0] == "str":
+            return v[1]
+        return v
+    model0 = tabeval.Model(ctx, b, None, local_prefix="insim::builder::", extra_leaf=opt_leaf, extra_call=opt_call)
     for f, (src, dflt) in sorted(ISI_SOURCES.items()):
         if f not in fields:
             continue
+        idx = st["rv"]["fields"].index(f)
         o = b.origin(fields[f])
-        fs = {x for x in origin_fields(o) if x and not x.isdigit()}
-        txt = fmt_origin(o)
         full = _full(o)
-        ok = fs == {src} and (dflt is None or dflt in full)
-        rep.check("R18.2", "isi.%s" % f, ok, "ISI.%s must come from builder field %s%s; found %s" % (f, src, (" with default " + dflt) if dflt else "", full[:200]), b.loc(st["line"]),
-                  sample={"isi_field": f, "source": sorted(fs), "expr": full[:160]})
+        bad = None
+        scen = (None,) if dflt is None else (False, True)
+        for has in scen:
+            state.clear()
+            state[src] = has
+            # every other builder field: present (so that a wrong source field shows up as its symbol)
+            for other, (s2, d2) in ISI_SOURCES.items():
+                if s2 != src:
+                    state[s2] = None if d2 is None else True
+            model0.ev.reset()
+            try:
+                got = set()
+                for r in model0.ev.matching_rows(rows0, lenient=True):
+                    if r[1][1] != "Isi" or len(r[1][3]) <= idx:
+                        raise tabeval.Unknown("result %s" % (r[1][1],))
+                    got.add(canon(model0.ev.ev(r[1][3][idx]), f))
+            except (tabeval.Unknown, tabeval.Panic) as e:
+                # conditions on other fields (proto ...) are irrelevant for this field: fall back to the direct expression
+                try:
+                    got = {canon(model0.ev.ev(o), f)}
+                except (tabeval.Unknown, tabeval.Panic) as e2:
+                    bad = "not evaluable (%s)" % e2
+                    break
+            want = ("sym", src) if has in (None, True) else want_default[f]
+            if got != {want}:
+                bad = "%s %s: ISI.%s is %s, expected %s" % (src, "unset" if has is False else "set", f, sorted(got, key=str), want)
+                break
+        rep.check("R18.2", "isi.%s" % f, bad is None, "ISI.%s must be builder field %s%s: %s; expression %s" % (f, src, (" or the documented default when unset") if dflt else "", bad, full[:160]), b.loc(st["line"]),
+                  sample={"isi_field": f, "source": src, "expr": full[:160]})
     # version <- Isi::default().version, and Default sets VERSION
     ov = b.origin(fields["version"])
     okv = ov[0] == "field" and ov[3] == "version" and ov[1][0] == "call" and (ov[1][2] or ov[1][1]).endswith("Isi as core::default::Default>::default")
@@ -125,7 +198,7 @@ def isi_provenance(ctx, rep):
             model.ev.reset()
             want = port if (v["name"] == "Udp" and port is not None) else 0
             try:
-                ms = model.ev.matching_rows(rows)
+                ms = model.ev.matching_rows(rows, lenient=True)
                 got = set()
                 for r in ms:
                     if r[1][1] != "Isi" or len(r[1][3]) <= fidx:
